@@ -67,7 +67,8 @@ def _response(status, ct_i, body, nfields, lf_only):
     if nfields >= 1:
         lines.append(b'Server: s')
     if ct is not None:
-        lines.append(b'Content-Type: ' + ct.encode())
+        # (LF-only variant: also white space between the field name and the colon, which the client accepts)
+        lines.append((b'Content-Type \t: ' if lf_only else b'Content-Type: ') + ct.encode())
     if nfields >= 2:
         lines.append(b'X-A: b')
         lines.append(b'HTTP/1.0 404 stray-status-line-without-colon')     # CGI artefact: the client skips it, so must the index
@@ -88,6 +89,7 @@ def _cdx_ranges(body, compress, rollover, appending, nsessions, status_i, ct_i, 
             w0, _ = _response(200, 1, b'x', 1, False)
             warcenv.http_exchange(old, 'http://h.example/old', w0, [])
             old.close()
+    fs.buffered = True                     # data written to a file that stays open reaches the disk only at flush / close
     rec = warcenv.new_recorder(fs, **params)
     wire, ct = _response(status, ct_i, body, nfields, lf_only)
     urls = []
@@ -95,6 +97,9 @@ def _cdx_ranges(body, compress, rollover, appending, nsessions, status_i, ct_i, 
         url = 'http://h.example/%d' % (0 if same_url else i)    # same_url: a repeated capture of one URL with an identical payload
         urls.append(url)
         warcenv.http_exchange(rec, url, wire, [cut] if cut else [])
+        mid = _cdx_lines(fs)
+        if mid is None or len([l for l in mid if l['a'] in urls]) != i + 1:
+            return False                   # the line of a finished exchange is on disk before the next one starts (not held back until close)
     rec.close()
     lines = _consistent(fs, compress)
     if lines is None:
